@@ -85,11 +85,11 @@ func (r *Result) Crashed() string {
 }
 
 type RunOpts struct {
-	Cwd     string // relative to workspace ("" = root)
-	Env     []string
-	Build   string        // VBUILD id
-	Timeout time.Duration // wall-clock cap (default 120s)
-	Stdin   string
+	Cwd        string // relative to workspace ("" = root)
+	Env        []string
+	Build      string        // VBUILD id
+	Timeout    time.Duration // wall-clock cap (default 120s)
+	Stdin      string
 	AfterStart func(pid int) // called in a goroutine once the process runs
 }
 
